@@ -24,5 +24,6 @@ From Chess3 Require Export Model.Eval.
 From Chess3 Require Export Spec.EvalSym.
 From Chess3 Require Export Model.C05Streams.
 From Chess3 Require Export Spec.C05Judge.
+From Chess3 Require Export Model.Uci Spec.UciSpec.
 
 Extraction Language OCaml.
